@@ -180,6 +180,11 @@ def run(ctx):
                       'the persister pointer is replaced only with _per_spl held')
     # R25.4 'the stored copy under each number is the transmitted message': provenance and placement of the store (rules of C17)
     c17.rules(ctx, prog, 'R25.4', 'R25.4')
+    # ---------------- R25.5 the pipelined writer hands messages to its thread through f8_concurrent_queue<Message*>, i.e. ff::uMPMC_Ptr_Queue over growable
+    # single-producer sub-queues: a sub-queue that refuses or loses an element loses a message that already has its sequence number (C30's R30.6-R30.8)
+    from .c30 import subqueue_rules
+    subqueue_rules(ctx, prog, 'R25.5')
+    ctx.floor('R25.5', 3)
     ctx.floor('R25.4', 6)
     ctx.floor('R25.1', 10)
     ctx.floor('R25.2', 8)
